@@ -8,6 +8,7 @@
 (*   tellstart / tell   a Tell of message id (0 = control message, s = "pause" / "resume")   *)
 (*             starts / returned (a = 1: accepted)                                          *)
 (*   reinstate the parent's Reinstate returned                                              *)
+(*   restartret  PID.Restart returned (a new incarnation)                                   *)
 (*   register  the actor was (re-)registered with the passivation manager                   *)
 (*   pop       the manager took the actor off its schedule (witness classification only)    *)
 (*   decision  tryPassivation holds stopLocker and goes on to stop the actor;               *)
@@ -65,6 +66,9 @@ Step ==
        [] e.ev = "tell" /\ e.s = "pause" ->
             /\ pauseSt' = IF e.a = 1 /\ pauseSt = 0 THEN 1 ELSE pauseSt
             /\ UNCHANGED <<cfg, lastEnter, count, decT, decCount, afterPause, psCount>>
+       [] e.ev = "restartret" ->       \* a new incarnation: PostStop may run once more (End counts the last incarnation only)
+            /\ psCount' = 0 /\ pauseSt' = 0 /\ afterPause' = {}
+            /\ UNCHANGED <<cfg, lastEnter, count, decT, decCount>>
        [] e.ev = "reinstate" ->
             /\ pauseSt' = 0 /\ afterPause' = {}
             /\ UNCHANGED <<cfg, lastEnter, count, decT, decCount, psCount>>
